@@ -196,7 +196,7 @@ def correspondence(ctx):
     common.impl()
     rng = ctx.rng('corr')
     cap = ctx.pick(8, None)
-    units = _units(documents(rng, 0), rng, cap, per=2) + _units(ctx.pick(400, 3000), rng, cap)
+    units = _units(documents(rng, 0), rng, cap, per=2) + _units(ctx.pick(400, 2000), rng, cap)
     _collect(r, _util.pmap(_corr_unit, units))
     op = 'del b2'
     r.sample({'request': L.edit_req(FIXED[0], [op]), 'impl': L.impl_edit(FIXED[0], [op])})
@@ -325,7 +325,7 @@ def oracle(ctx, seeds, scale):
     cap = ctx.pick(10, None)
     units = _units(seed_docs[:60], rng, None, per=1)
     units += _units(documents(rng, 0, corpus_max=ctx.pick(300, 1500)), rng, cap, per=2)
-    units += _units(ctx.pick(700, 6000) * scale, rng, cap)
+    units += _units(ctx.pick(700, 4000) * scale, rng, cap)
     _collect_oracle(r, _util.pmap(_oracle_unit, units))
     # failures sorted so that the smallest document is reported first
     r.failures.sort(key=lambda f: len(f['input']['doc']))
